@@ -394,10 +394,25 @@ fn stag(input: &str) -> IResult<&str, model::Element<'_>> {
     map(
         delimited(
             tag("<"),
-            tuple((qname, many0(preceded(multispace1, attribute)))),
+            tuple((qname, attributes)),
             tuple((multispace0, tag(">"))),
         ),
         model::Element::from,
+    )(input)
+}
+
+/// (S Attribute)*
+///
+/// WFC: Unique Att Spec
+fn attributes(input: &str) -> IResult<&str, Vec<model::Attribute<'_>>> {
+    verify(
+        many0(preceded(multispace1, attribute)),
+        |attrs: &Vec<model::Attribute<'_>>| {
+            attrs
+                .iter()
+                .enumerate()
+                .all(|(i, a)| attrs[..i].iter().all(|b| a.name != b.name))
+        },
     )(input)
 }
 
@@ -465,7 +480,7 @@ fn empty_entity_tag(input: &str) -> IResult<&str, model::Element<'_>> {
     map(
         delimited(
             tag("<"),
-            tuple((qname, many0(preceded(multispace1, attribute)))),
+            tuple((qname, attributes)),
             tuple((multispace0, tag("/>"))),
         ),
         model::Element::from,
